@@ -16,7 +16,8 @@ ASSUMPTIONS = [
     'rxsci executes synchronously: outputs observed while a chunk is pushed are the outputs caused by that chunk',
 ]
 RULE = ('cases = corpus + exhaustive cut sets of short framed streams + random item lists with random cut positions '
-        '(duplicated positions give empty chunks; cuts fall inside prefixes and payloads); '
+        '(duplicated positions give empty chunks; cuts fall inside prefixes and payloads); a third of the random cases also subscribe the '
+        'same un-framed observable three times over a cold source (state must be per subscription, incl. after an incomplete trailing frame); '
         'non-trivial = at least two items or a carried-over partial item crosses a chunk boundary; distinct by SHA-1 of the canonical case')
 ORACLE_DOC = ('real unframe over the chunked real-framed stream must deliver exactly the original items in order '
               '(line: a non-empty unterminated tail once at completion; length-prefix: an incomplete trailing frame never)')
@@ -43,6 +44,8 @@ def cases(tier, rng):
     yield {'kind': 'line', 'items': [''], 'tail': '', 'cuts': [0, 1]}
     yield {'kind': 'lp', 'p': 2, 'big': False, 'items': [[7, 8, 9], [], [5]], 'tail_item': None, 'tail_len': 0, 'cuts': [3, 6, 8]}
     yield {'kind': 'lp', 'p': 1, 'big': True, 'items': [[0] * 255], 'tail_item': [1, 2, 3], 'tail_len': 2, 'cuts': [1, 200]}
+    yield {'kind': 'lp', 'p': 2, 'big': False, 'items': [[1], [2, 3]], 'tail_item': [4, 5, 6], 'tail_len': 3, 'cuts': [2], 'resub': True}
+    yield {'kind': 'line', 'items': ['a', 'b'], 'tail': 'c', 'cuts': [1], 'resub': True}
     # exhaustive: every cut set of short streams
     small_line = [(['a', '', 'bc'], 'd'), (['\n'.strip() or 'x', 'y'], ''), ([''], 'é')]
     for items, tail in small_line:
@@ -68,7 +71,7 @@ def cases(tier, rng):
             tail = ''.join(rng.choice(ALPHA.replace('\n', '')) for _ in range(rng.choice([0, 0, 1, 3])))
             n = sum(len(i) + 1 for i in items) + len(tail)
             cuts = sorted(rng.randrange(0, n + 1) for _ in range(rng.choice([0, 1, 2, 3, 6, 12])))
-            yield {'kind': 'line', 'items': items, 'tail': tail, 'cuts': cuts}
+            yield {'kind': 'line', 'items': items, 'tail': tail, 'cuts': cuts, 'resub': rng.random() < 0.3}
         else:
             p = rng.choice([1, 2, 4, 8])
             big = rng.random() < 0.5
@@ -82,7 +85,8 @@ def cases(tier, rng):
                 tail_len = rng.randrange(0, p + len(tail_item))
             n = sum(len(i) + p for i in items) + tail_len
             cuts = sorted(rng.randrange(0, n + 1) for _ in range(rng.choice([0, 1, 2, 3, 6, 12])))
-            yield {'kind': 'lp', 'p': p, 'big': big, 'items': items, 'tail_item': tail_item, 'tail_len': tail_len, 'cuts': cuts}
+            yield {'kind': 'lp', 'p': p, 'big': big, 'items': items, 'tail_item': tail_item, 'tail_len': tail_len, 'cuts': cuts,
+                   'resub': rng.random() < 0.3}
 
 
 def real(case):
@@ -91,7 +95,10 @@ def real(case):
         framed = ''.join(x for s in fr['steps'] for x in s)
         chunks = cut(framed + case['tail'], case['cuts'])
         r = drive_plain([line.unframe()], chunks)
-        return {'framed': [x for s in fr['steps'] for x in s], 'steps': r['steps'], 'fin': r['fin'], 'end': r['end']}
+        res = {'framed': [x for s in fr['steps'] for x in s], 'steps': r['steps'], 'fin': r['fin'], 'end': r['end']}
+        if case.get('resub'):
+            res['resub'] = _resub(line.unframe(), chunks, lambda x: x)
+        return res
     order = 'big' if case['big'] else 'little'
     fr = drive_plain([lp.frame(prefix_size=case['p'], byteorder=order)], [bytes(i) for i in case['items']])
     framed = b''.join(x for s in fr['steps'] for x in s)
@@ -100,8 +107,24 @@ def real(case):
         framed += t['steps'][0][0][:case['tail_len']]
     chunks = cut(framed, case['cuts'])
     r = drive_plain([lp.unframe(prefix_size=case['p'], byteorder=order)], chunks)
-    return {'framed': [list(x) for s in fr['steps'] for x in s],
-            'steps': [[list(x) for x in s] for s in r['steps']], 'fin': [list(x) for x in r['fin']], 'end': r['end']}
+    res = {'framed': [list(x) for s in fr['steps'] for x in s],
+           'steps': [[list(x) for x in s] for s in r['steps']], 'fin': [list(x) for x in r['fin']], 'end': r['end']}
+    if case.get('resub'):
+        res['resub'] = _resub(lp.unframe(prefix_size=case['p'], byteorder=order), chunks, list)
+    return res
+
+
+def _resub(op, chunks, conv):
+    """one un-framed observable over a cold source, subscribed three times: what each subscription delivers"""
+    import rx
+    obs = rx.from_(list(chunks)).pipe(op)
+    runs = []
+    for _ in range(3):
+        got, end = [], []
+        obs.subscribe(on_next=lambda x: got.append(conv(x)), on_completed=lambda: end.append('completed'),
+                      on_error=lambda e: end.append('error:' + type(e).__name__))
+        runs.append({'items': got, 'end': end})
+    return runs
 
 
 def model_cmds(case):
@@ -123,12 +146,21 @@ def compare(case, r, m):
     for k in ('framed', 'steps', 'fin', 'end'):
         if r.get(k) != m.get(k):
             return '%s: real=%r model=%r' % (k, r.get(k), m.get(k))
+    for n, run in enumerate(r.get('resub') or []):
+        want = {'items': [x for s in m['steps'] for x in s] + m['fin'], 'end': ['completed']}
+        if run != want:
+            return 'subscription %d of the same un-framed observable: real=%r model (fresh state per subscription)=%r' % (n + 1, run, want)
     return None
 
 
 def oracle(case, r):
     if 'harness_exc' in r:
         return 'real code raised: ' + r['harness_exc']
+    for n, run in enumerate(r.get('resub') or []):
+        want = case['items'] + ([case['tail']] if case['kind'] == 'line' and case['tail'] else [])
+        if run['items'] != want or run['end'] != ['completed']:
+            return ('%s.unframe, subscription %d of the same observable delivered %r (%s); expected %r'
+                    % ('line' if case['kind'] == 'line' else 'length_prefix', n + 1, run['items'], run['end'], want))
     got = [x for s in r['steps'] for x in s]
     if case['kind'] == 'line':
         want_fin = [case['tail']] if case['tail'] else []
